@@ -110,7 +110,32 @@ GRID_TABLES = [
 DT_VALUES = [0.125, -0.25, 0.0625]
 
 
-def grid_points(symbols, per_symbol, seed=0, dts=(0.125, -0.25)):
+def is_polynomial(ast):
+    t = ast[0]
+    if t in ("sym", "dt", "const"):
+        return True
+    if t == "fn" or t == "div":
+        return False
+    if t == "pow":
+        return int(ast[2]) > 0 and is_polynomial(ast[1])
+    return is_polynomial(ast[1]) and is_polynomial(ast[2])
+
+
+def special_values(asts):
+    """boundary values suggested by the program itself: its constants, their squares and negatives (a rewrite that is valid
+    'almost everywhere' fails where a symbol meets one of the program's own constants)"""
+    from .refmodel import ast_consts
+    vals = []
+    for a in asts:
+        for p_, q_ in sorted(ast_consts(a)):
+            c = p_ / q_
+            for v in (c, c * c, -c):
+                if v not in vals and abs(v) <= 64 and v != 0.0:
+                    vals.append(v)
+    return vals[:8]
+
+
+def grid_points(symbols, per_symbol, seed=0, dts=(0.125, -0.25), specials=(), large=False):
     """Full Cartesian product: `per_symbol` distinct dyadic values for every symbol slot (slot i draws from a
     rotated table so no two slots share a value at the same grid index), times the dt values.
     Yields env dicts {name: float, 'dt': float}."""
@@ -134,8 +159,19 @@ def grid_points(symbols, per_symbol, seed=0, dts=(0.125, -0.25)):
     if first is not None:
         yield dict({s: 0.0 for s in symbols}, dt=dts[0])
         yield dict(first, dt=0.0)
+        yield dict(first, dt=2.0 ** -34)   # shorter than any "time resolution" a shortcut might use (1e-9 s), still a step
+        yield dict(first, dt=-(2.0 ** -34))
         for s in symbols[:4]:
             yield dict(first, **{s: 0.0})
+        for s in symbols[:3]:
+            for v in specials:
+                yield dict(first, **{s: v})
+        if large:
+            # large, nearly equal operands (exactly representable): differences are exact, but a rewrite that expands a
+            # product of differences cancels catastrophically
+            big = 2.0 ** 26
+            yield dict({s: big + (i + 1) * 0.75 for i, s in enumerate(symbols)}, dt=dts[0])
+            yield dict({s: -big - (i + 1) * 1.25 for i, s in enumerate(symbols)}, dt=dts[0])
         yield dict(first)
 
 
@@ -298,6 +334,17 @@ def _one_op_defs():
     out.append(mk("tan-atan-cal", fn("tan", fn("atan", mul(S("c"), S("x"))))))
     out.append(mk("log-exp-state", add(fn("log", fn("exp", mul(C(1, 4), S("x")))), S("u"))))
     out.append(mk("sqrt-square-control", add(fn("sqrt", pw(S("u"), 2)), S("x"))))
+    # a denominator that is a sum containing a root (rationalising it introduces a singularity where sqrt(.) meets the constant),
+    # and products of differences (expanding them cancels for large, nearly equal operands)
+    out.append(mk("div-by-sum-with-sqrt", div(S("u"), add(C(1, 2), fn("sqrt", S("y"))))))
+    out.append(mk("div-by-sqrt-sum", div(C(1), add(fn("sqrt", add(pw(S("x"), 2), C(1, 4))), fn("sqrt", add(pw(S("y"), 2), C(1, 4)))))))
+    out.append(mk("square-of-difference", add(pw(sub(S("x"), S("y")), 2), pw(sub(S("u"), S("x")), 2))))
+    out.append(mk("product-of-differences", mul(sub(S("x"), S("y")), sub(S("x"), S("u")))))
+    # rewrites that are only valid for positive arguments (log(u^2) -> 2 log(u), log(a) + log(b) -> log(a b) is safe but the
+    # reverse split of log(a b) is not when both are negative)
+    out.append(mk("log-square", add(fn("log", pw(S("x"), 2)), S("u"))))
+    out.append(mk("log-prod-squares", fn("log", add(mul(pw(S("x"), 2), pw(S("u"), 2)), C(1, 16)))))
+    out.append(mk("log-neg-prod", add(fn("log", add(mul(S("x"), S("u")), C(20))), S("y"))))
     # depth-3 mixes
     out.append(mk("mix1", div(mul(fn("sin", add(S("x"), S("u"))), fn("exp", mul(C(1, 4), S("c")))), add(pw(S("y"), 2), C(1)))))
     out.append(mk("mix2", sub(pw(add(S("x"), mul(DT, S("u"))), 3), fn("atan", mul(S("c"), S("y"))))))
@@ -309,7 +356,7 @@ def family_ops(tier):
     d = _one_op_defs()
     if tier == "quick":
         keep = [x for x in d if any(t in x["name"] for t in ("div-by-", "inv-square", "reciprocal", "neg-one", "neg-two", "atan-tan", "tan-atan",
-                                                              "log-exp", "sqrt-square", "only-", "other-state", "const-", "identity"))]
+                                                              "log-exp", "sqrt-square", "log-square", "log-prod", "log-neg", "with-sqrt", "sqrt-sum", "of-difference", "only-", "other-state", "const-", "identity"))]
         return d[::3] + [x for x in keep if x not in d[::3]]
     return d
 
@@ -364,10 +411,14 @@ def family_cse(tier):
     out.append(mk("sign-abs2", [mul(ab(duv), duv), add(dxy, ab(duv)), mul(dxy, duv)]))
     out.append(mk("sign-sqrtprod", [fn("sqrt", add(mul(pw(dxy, 2), pw(duv, 2)), C(1, 2))), mul(dxy, duv)]))
     out.append(mk("sign-atan", [fn("atan", div(dxy, add(pw(duv, 2), C(1)))), mul(fn("atan", div(dxy, add(pw(duv, 2), C(1)))), dxy)]))
+    # polynomial programs sharing products of differences (evaluated also at large, nearly equal operands)
+    d1, d2 = sub(x, y), sub(x, u)
+    out.append(mk("poly-diff-squares", [mul(pw(d1, 2), c), add(pw(d1, 2), pw(d2, 2)), mul(d1, d2)]))
+    out.append(mk("poly-diff-cubes", [add(pw(d1, 3), pw(d2, 2)), mul(pw(d1, 2), d2)]))
     out.append(many_temporaries(13, "a"))
     out.append(many_temporaries(24, "b"))
     if tier == "quick":
-        return out[::4] + out[-14:]
+        return out[::4] + out[-16:]
     return out
 
 
